@@ -66,6 +66,30 @@ func c10Fn(name string) (perColor func(color.Color) color.RGBA64, run func(dst d
 	return s.Encode, s.EncodeImage
 }
 
+// sliceImg is a caller-defined image with value receivers whose struct holds a slice: two such
+// values cannot be compared with == (comparing them through an interface panics).
+type sliceImg struct {
+	pix  []uint64
+	rect image.Rectangle
+}
+
+func (s sliceImg) ColorModel() color.Model { return color.RGBA64Model }
+func (s sliceImg) Bounds() image.Rectangle { return s.rect }
+func (s sliceImg) At(x, y int) color.Color {
+	if !(image.Point{x, y}).In(s.rect) {
+		return color.RGBA64{}
+	}
+	v := s.pix[(y-s.rect.Min.Y)*s.rect.Dx()+(x-s.rect.Min.X)]
+	return color.RGBA64{R: uint16(v >> 48), G: uint16(v >> 32), B: uint16(v >> 16), A: uint16(v)}
+}
+func (s sliceImg) Set(x, y int, c color.Color) {
+	if !(image.Point{x, y}).In(s.rect) {
+		return
+	}
+	r, g, b, a := c.RGBA()
+	s.pix[(y-s.rect.Min.Y)*s.rect.Dx()+(x-s.rect.Min.X)] = uint64(r&0xffff)<<48 | uint64(g&0xffff)<<32 | uint64(b&0xffff)<<16 | uint64(a&0xffff)
+}
+
 // c10Wild is a per-colour function that does not return valid premultiplied colours: alpha 0 with
 // non-zero channels, channels above alpha. The property says the destination receives its colour
 // model's conversion of whatever the function returns.
@@ -425,6 +449,87 @@ func runC10(r *core.Run) {
 			r.Violate("cell", fmt.Sprintf("%s<-%s/%s/%s", c.Dst, c.Src, c.DstMode, c10PathClass(c)), msg, c)
 		}
 	})
+	// caller-defined image types: a value type whose struct holds a slice (not comparable with ==),
+	// as source, as destination, and as both at once (in place)
+	{
+		rg := core.NewRNG(r.Seed, "C10", "custom-types")
+		for k := 0; k < 24; k++ {
+			rect := image.Rect(-2+k%3, 1, 5+k%3, 4+k%5)
+			mk := func() sliceImg {
+				m := sliceImg{pix: make([]uint64, rect.Dx()*rect.Dy()), rect: rect}
+				for i := range m.pix {
+					a := rg.U64() & 0xffff
+					m.pix[i] = (rg.U64()%(a+1))<<48 | (rg.U64()%(a+1))<<32 | (rg.U64()%(a+1))<<16 | a
+				}
+				return m
+			}
+			src := mk()
+			var dst draw.Image
+			mode := []string{"in place", "value to value", "value to *image.RGBA64", "*image.NRGBA to value"}[k%4]
+			var from image.Image = src
+			switch k % 4 {
+			case 0:
+				dst = src
+			case 1:
+				dst = mk()
+			case 2:
+				dst = image.NewRGBA64(rect)
+			case 3:
+				n := image.NewNRGBA(rect)
+				rg.Fill(n.Pix)
+				from, dst = n, mk()
+			}
+			want := make([]color.RGBA64, 0, rect.Dx()*rect.Dy())
+			for y := rect.Min.Y; y < rect.Max.Y; y++ {
+				for x := rect.Min.X; x < rect.Max.X; x++ {
+					want = append(want, c10Hash(from.At(x, y)))
+				}
+			}
+			pan := func() (p any) {
+				defer func() { p = recover() }()
+				linear.TransformImageColor(dst, from, 1+k%3, c10Hash)
+				return nil
+			}()
+			r.AddEvals(1)
+			if pan != nil {
+				r.Violate("custom", "custom-type/panic", fmt.Sprintf("TransformImageColor with a caller-defined value-type image (%s) panicked: %v", mode, pan), map[string]any{"mode": mode, "k": k, "seed": r.Seed})
+				continue
+			}
+			i := 0
+			for y := rect.Min.Y; y < rect.Max.Y; y++ {
+				for x := rect.Min.X; x < rect.Max.X; x++ {
+					if got := color.RGBA64Model.Convert(dst.At(x, y)).(color.RGBA64); got != want[i] {
+						r.Violate("custom", "custom-type/pixel", fmt.Sprintf("TransformImageColor with a caller-defined value-type image (%s): pixel (%d,%d) is %v, the per-colour function gives %v", mode, x, y, got, want[i]), map[string]any{"mode": mode, "k": k, "seed": r.Seed})
+						y = rect.Max.Y
+						break
+					}
+					i++
+				}
+			}
+		}
+	}
+	// every (rows, parallelism) pair up to 64 x 80 on images two pixels wide: whichever way the
+	// rows are dealt out to the workers, each row is transformed exactly once
+	{
+		var cells []c10Cell
+		for rows := 1; rows <= 64; rows++ {
+			for par := 1; par <= 80; par++ {
+				kind := []string{"RGBA64", "NRGBA", "RGBA", "NRGBA64"}[(rows+par)%4]
+				mode := "same"
+				if (rows*7+par)%5 == 0 {
+					mode = "inplace"
+				}
+				cells = append(cells, c10Cell{Src: kind, Dst: kind, W: 2, H: rows, OX: 1, OY: -3, DstMode: mode, Par: par, Fn: "hash", Seed: uint64(rows*1000 + par)})
+			}
+		}
+		core.ParallelFor(len(cells), 8, func(i int) {
+			if bad, msg := c10Run(cells[i]); bad {
+				r.Violate("cell", fmt.Sprintf("%s<-%s/%s/rows-x-parallelism", cells[i].Dst, cells[i].Src, cells[i].DstMode), msg, cells[i])
+			}
+			r.AddEvals(1)
+		})
+		r.Obs("rows_x_parallelism_cells", len(cells))
+	}
 	// sequences on one source object: transform, mutate the source in place (palette entries,
 	// pixels), transform again - no result may be remembered across calls by the source's identity
 	{
